@@ -32,7 +32,7 @@ def knn_case(draw, nmax=10, kinds=("knn", "unsup"), nq=(0, 0), kmax_force=False,
     case = {"model": model, "mode": mode, "nt": nt, "nq": n_q, "max_k": max_k}
     if draw(st.booleans()):
         # the model object has a history before the fit that is checked, and helper calls between the fit and the prediction
-        case["prelude"] = draw(st.lists(st.sampled_from(["fit_other", "fit_bigger_k", "predict_other", "get_distances", "via_load", "fit_other", "fit_scaled_then_predict"]), min_size=1, max_size=4))
+        case["prelude"] = draw(st.lists(st.sampled_from(["fit_other", "fit_bigger_k", "predict_other", "get_distances", "via_load", "fit_other", "fit_scaled_then_predict", "stale_matrix"]), min_size=1, max_size=4))
         case["mid"] = draw(st.lists(st.sampled_from(["predict_first", "propagate_labels", "get_distances"]), min_size=0, max_size=2))
     if model == "knn":
         Y = draw(gen.labels(nt, 1, 3))
@@ -196,6 +196,13 @@ def run(case, predict=True, record_criterion=True, need_symmetric=True, allow_ne
             libcall(model.predict, Xtr[:2].copy(), None if I_tr is None else I_tr[:2].copy())
         elif op == "get_distances" and trained:
             libcall(model.get_distances)
+        elif op == "stale_matrix" and case["mode"] == "feat":
+            # a distance matrix from an earlier experiment stays attached while the documented switch pre_computed_distance is off
+            ns = nt + nv + nq + 2
+            S = np.array([[0.0 if a == b else float(((a * 7 + b * 13 + a * b) % 11) + 1) for b in range(ns)] for a in range(ns)])
+            model.pre_computed_distance = True
+            model.pre_distances = S
+            model.pre_computed_distance = False
         elif op == "via_load":
             with tempfile.TemporaryDirectory(prefix="knncase-") as tmp:
                 f = os.path.join(tmp, "m.pkl")
